@@ -10,7 +10,7 @@
    fixed state), kem_ct_binding (two ML-KEM ciphertexts do not decapsulate to the same secret;
    the ciphertext itself is not absorbed), kemparse_canonical (the KEM key parser accepts only
    the canonical encoding; the re-marshalled key is what is absorbed), mac_binding. *)
-From Hop Require Import Base Handshake HsServer HandshakeProofs HsServerProofs HsBindingProofs HsHonestProofs HsInstances.
+From Hop Require Import Base Handshake HsServer HandshakeProofs HsServerProofs HsBindingProofs HsHonestProofs HsInstances Keccak Cyclist CyclistProofs HsConcrete HsConcreteProofs.
 Open Scope N_scope.
 
 (* ---- ClientHello: header and KEM key are absorbed, the MAC is their squeeze *)
@@ -225,3 +225,87 @@ Print Assumptions c02_honest_run_agrees_hidden.
    satisfies duplex_ok *)
 Example c02_hypotheses_satisfiable : mac_binding injO /\ crypt_injective injO /\ duplex_ok zeroO.
 Proof. exact (conj mac_binding_satisfiable (conj crypt_injective_satisfiable duplex_ok_satisfiable)). Qed.
+
+(* ====== the executable instance: duplex := Cyclist over Keccak-p[1600,12] (Model/HsConcrete.v) ======
+   [hopO] answers every Squeeze / Encrypt / Decrypt of the symbolic model by running the transcript's
+   operations on the Cyclist model of group crypto (C13). For it the premise duplex_ok is a THEOREM
+   (output lengths from c13_lengths / crypt_length, decrypt-after-encrypt from the Crypt involution
+   behind c13_decrypt_encrypt), so the honest-run theorems hold for byte-exact hop with only the
+   primitives outside the model (X25519, ML-KEM, the cookie AEAD, the certificate policy) as premises. *)
+Theorem c02_concrete_duplex_ok : duplex_ok hopO.
+Proof. exact (concO_duplex_ok keccak12 keccak12_len). Qed.
+Print Assumptions c02_concrete_duplex_ok.
+
+Theorem c02_honest_run_agrees_discoverable_concrete : forall X
+    kpub ekid epub_c ce cs cleaf cinter polc snib name
+    ck ip port ct k cookie es epub_s ss sleaf sinter pols sid
+    spk cpk
+    mch Tch msh Tsh mack Tack Tsa msa Tca mca,
+  len kpub = KemKeyLen -> len ct = KemCtLen -> len cookie = PQCookieLen -> len k = PQSharedSecretLen ->
+  len epub_c = DHLen -> len epub_s = DHLen -> len snib = SNILen -> len sid = SessionIDLen ->
+  0 < len cleaf -> len cleaf < 65536 -> len cinter < 65536 -> enc_certs_len cleaf cinter < 65536 ->
+  len sleaf < 65536 -> len sinter < 65536 -> enc_certs_len sleaf sinter < 65536 ->
+  x_kemparse X kpub = Some kpub ->
+  x_decaps X ekid ct = Some k ->                              (* kem_correct *)
+  x_open X ck (cookie_ad X kpub ip port) cookie = Some k ->   (* cookie round trip *)
+  parse_sni snib = Ok name ->
+  x_dh X ce epub_s = x_dh X es epub_c ->                      (* dh_comm *)
+  x_dh X ce spk = x_dh X ss epub_c ->
+  x_dh X es cpk = x_dh X cs epub_s ->
+  x_policy X polc sleaf sinter = Some spk -> x_policy X pols cleaf cinter = Some cpk ->
+  write_client_hello hopO (tr_start PQName) kpub = (mch, Tch) ->
+  write_server_hello hopO Tch ct k cookie = (msh, Tsh) ->
+  write_client_ack hopO (rekey hopO Tsh PQName) epub_c kpub cookie snib = (mack, Tack) ->
+  write_server_auth hopO X Tack sid epub_s es ss epub_c sleaf sinter = (Tsa, Ok msa) ->
+  write_client_auth hopO X Tsa sid cs epub_s cleaf cinter = (Tca, Ok mca) ->
+  read_client_hello hopO X (tr_start PQName) mch = (Tch, Ok (len mch, kpub)) /\
+  read_server_hello hopO X ekid Tch msh = (Tsh, Ok (len msh, cookie)) /\
+  read_client_ack hopO X ck ip port mack =
+    Ok (len mack, {| ak_tr := Tack; ak_eph := epub_c; ak_kem := kpub; ak_sni := name |}) /\
+  read_server_auth hopO X ce polc Tack msa = (Tsa, Ok {| sa_n := len msa; sa_sid := sid; sa_eph := epub_s; sa_pk := spk |}) /\
+  read_client_auth hopO X es pols sid Tsa mca = (Tca, Ok (len mca, cpk)).
+Proof.
+  intros X kpub ekid epub_c ce cs cleaf cinter polc snib name ck ip port ct k cookie es epub_s ss sleaf sinter pols sid
+         spk cpk mch Tch msh Tsh mack Tack Tsa msa Tca mca.
+  exact (discoverable_run_agrees hopO X kpub ekid epub_c ce cs cleaf cinter polc snib name ck ip port ct k cookie es
+           epub_s ss sleaf sinter pols sid spk cpk mch Tch msh Tsh mack Tack Tsa msa Tca mca c02_concrete_duplex_ok).
+Qed.
+Print Assumptions c02_honest_run_agrees_discoverable_concrete.
+
+Theorem c02_honest_run_agrees_hidden_concrete : forall X
+    kpub ekid cs cleaf cinter polc ts
+    c rest kid ct k pols now sid ect ek ss sleaf sinter
+    spk cpk Treq mreq Tresp mresp,
+  len kpub = KemKeyLen -> len ct = KemCtLen -> len ts = TimestampLen -> len sid = SessionIDLen -> len ect = KemCtLen ->
+  0 < len cleaf -> len cleaf < 65536 -> len cinter < 65536 -> enc_certs_len cleaf cinter < 65536 ->
+  len sleaf < 65536 -> len sinter < 65536 -> enc_certs_len sleaf sinter < 65536 ->
+  hc_kem c = Some kid -> hc_hasname c = true ->
+  x_decaps X kid ct = Some k -> x_decaps X ekid ect = Some ek ->   (* kem_correct *)
+  x_kemparse X kpub = Some kpub ->
+  x_dh X cs spk = x_dh X ss cpk ->                                 (* dh_comm *)
+  x_policy X pols cleaf cinter = Some cpk -> x_policy X polc sleaf sinter = Some spk ->
+  be_dec ts <= now -> now - be_dec ts <= HiddenExpiration ->
+  write_request_hidden hopO (tr_start_hidden hopO) kpub ct k cleaf cinter ts = (Treq, Ok mreq) ->
+  write_response_hidden hopO X Treq sid ect ek ss cpk sleaf sinter = (Tresp, Ok mresp) ->
+  read_request_hidden hopO X (Some (c :: rest)) pols now [] mreq =
+    (Treq, Ok {| hq_n := len mreq; hq_tr := Treq; hq_kem := kpub; hq_pk := cpk; hq_cert := c |}) /\
+  read_response_hidden hopO X ekid cs polc Treq mresp =
+    (Tresp, Ok {| sa_n := len mresp; sa_sid := sid; sa_eph := []; sa_pk := spk |}).
+Proof.
+  intros X kpub ekid cs cleaf cinter polc ts c rest kid ct k pols now sid ect ek ss sleaf sinter spk cpk Treq mreq Tresp mresp.
+  exact (hidden_run_agrees hopO X kpub ekid cs cleaf cinter polc ts c rest kid ct k pols now sid ect ek ss sleaf sinter
+           spk cpk Treq mreq Tresp mresp c02_concrete_duplex_ok).
+Qed.
+Print Assumptions c02_honest_run_agrees_hidden_concrete.
+
+(* crypt_injective holds for the executable instance wherever the Cyclist object exists in keyed mode
+   (every transcript after RekeyFromSqueeze: c02_concrete_rekey_keyed) — a theorem, not a hypothesis *)
+Theorem c02_concrete_crypt_injective : forall T c ct ct',
+  cy_of keccak12 T = Ok c -> md c = MKey -> o_dec hopO T ct = o_dec hopO T ct' -> ct = ct'.
+Proof. exact (conc_dec_injective keccak12). Qed.
+Print Assumptions c02_concrete_crypt_injective.
+
+Theorem c02_concrete_rekey_keyed : forall T name, (List.length name < 120)%nat ->
+  exists c, cy_of keccak12 (rekey hopO T name) = Ok c /\ md c = MKey.
+Proof. intros. apply rekey_keyed; auto using keccak12_len. Qed.
+Print Assumptions c02_concrete_rekey_keyed.
